@@ -2,8 +2,10 @@
    Only statements here; proofs live in Proofs/C05_*.v.  The kd-tree is an oracle [q]: the answer for one target
    pixel (an index into the compacted valid sources, or n) does not depend on the block it is queried in. *)
 From Coq Require Import ZArith List Lia Bool Reals Lra.
-From PR Require Import Base.ZX Base.Slice Model.Partition Model.Blockwise Model.BlockwiseSpec
-     Proofs.C05_assemble Proofs.C05_pipeline Proofs.C05_mask Proofs.C05_dims Proofs.C05_flatten.
+From PR Require Import Base.Num Base.RNum Base.ZX Base.Slice Model.Partition Model.Blockwise Model.BlockwiseSpec
+     Model.BlockwiseValid Model.BlockwiseBF Gen.GenC05
+     Proofs.C05_assemble Proofs.C05_pipeline Proofs.C05_mask Proofs.C05_dims Proofs.C05_flatten
+     Proofs.C05_gen Proofs.C05_cache Proofs.C05_bruteforce.
 Import ListNotations.
 Open Scope Z_scope.
 
@@ -171,3 +173,120 @@ Example C05_flatten_ex :     (* 2 leading planes x 3 source pixels (pixel 1 inva
     [true; false; true] [100; 101; 110; 111; 120; 121; 200; 201; 210; 211; 220; 221]
   = [[[[100; 101]; [120; 121]; [-9; -9]]]; [[[200; 201]; [220; 221]; [-9; -9]]]].
 Proof. reflexivity. Qed.
+
+(* ---------------------------------------------------------------------------------------------------------------
+   definitions regenerated from /repo on every run (tools/gen_specs/GenC05.json -> Gen/GenC05.v) *)
+
+(* "same valid-input compaction": the lon/lat validity expressions of the numpy reference (_get_valid_input_index,
+   _get_valid_output_index), of XArrayResamplerNN (_create_resample_kdtree, get_neighbour_info) and of
+   KDTreeNearestXarrayResampler (_create_resample_kdtree, _get_neighbor_info) are one and the same predicate, in any
+   arithmetic (binary64 included: same comparisons in the same order) ... *)
+Theorem C05_same_validity_test : forall (T : Type) (OP : ops T) lon lat,
+  gen_valid_input_legacy OP lon lat = gen_valid_input_numpy OP lon lat /\
+  gen_valid_input_future OP lon lat = gen_valid_input_numpy OP lon lat /\
+  gen_valid_output_legacy OP lon lat = gen_valid_output_numpy OP lon lat /\
+  gen_valid_output_future OP lon lat = gen_valid_output_numpy OP lon lat /\
+  gen_valid_input_numpy OP lon lat = valid_lonlat OP lon lat /\
+  gen_valid_output_numpy OP lon lat = valid_lonlat OP lon lat.
+Proof. intros T. exact (@same_validity_test T). Qed.
+Print Assumptions C05_same_validity_test.
+(* ... which over the reals holds exactly for the in-range coordinates *)
+Theorem C05_valid_iff_in_range : forall lon lat : R,
+  gen_valid_input_legacy RO lon lat = true <-> (-180 <= lon <= 180 /\ -90 <= lat <= 90)%R.
+Proof. exact valid_lonlat_R. Qed.
+Print Assumptions C05_valid_iff_in_range.
+Example C05_valid_ex : gen_valid_input_future RO 180%R (-90)%R = true /\ gen_valid_output_legacy RO 181%R 0%R = false.
+Proof.
+  split; [apply valid_lonlat_R; lra|].
+  destruct (gen_valid_output_legacy RO 181%R 0%R) eqn:E; [|reflexivity]. apply valid_lonlat_R in E. lra.
+Qed.
+
+(* the index tests of query_no_distance (good_pixels) and of the numpy _extract_resample_result (index_mask,
+   new_index_array) are the ones inside the models: the models ARE the pipelines with the regenerated tests plugged in *)
+Theorem C05_query_model_uses_generated_test : forall n voi q pix,
+  qnd_flat n voi q pix =
+  let voir := map (fun p => voi (fst p) (snd p)) pix in
+  let index_array := map (fun p => q (fst p) (snd p)) (compress voir pix) in
+  let good_pixels := map (fun i => gen_good_pixels i n) index_array in
+  scatter (scatter voir good_pixels false) (compress good_pixels index_array) (-1).
+Proof. exact qnd_flat_uses_gen. Qed.
+Print Assumptions C05_query_model_uses_generated_test.
+Theorem C05_numpy_model_uses_generated_tests : forall (V : Type) (fill : V) vii voi ia data,
+  np_sample fill vii voi ia data =
+  let n := count_true vii in
+  if (n =? 0) || (count_true voi =? 0) then map (fun _ => fill) voi
+  else
+    let new_data := compress vii data in
+    let index_mask := map (fun i => gen_np_index_mask i n) ia in
+    let new_index_array := map2 gen_np_new_index index_mask ia in
+    let result := map (fun i => nth (Z.to_nat i) new_data fill) new_index_array in
+    scatter voi (map2 (fun (m : bool) v => if m then fill else v) index_mask result) fill.
+Proof. intros V. exact (@np_sample_uses_gen V). Qed.
+Print Assumptions C05_numpy_model_uses_generated_tests.
+
+(* ---------------------------------------------------------------------------------------------------------------
+   composition with C02: the brute-force reference of C02 (Model/KDTree.v nearest, proved there to meet the kd-tree
+   contract, strict bound, lowest index on ties) run over the unmasked compacted candidates meets C05's masked-query
+   spec; so with it the two mask clauses hold with NO hypothesis on the oracle, for every chunking *)
+Theorem C05_brute_force_meets_masked_spec : forall vii mask (d2 : Z -> Z -> nat -> Z) r2 i j,
+  knn_masked_spec vii mask (fun i j s => IZR (d2 i j s)) (IZR r2) i j (bf_query vii mask d2 r2 i j).
+Proof. exact bf_meets_spec. Qed.
+Print Assumptions C05_brute_force_meets_masked_spec.
+Theorem C05_mask_clauses_for_brute_force : forall vii mask (d2 : Z -> Z -> nat -> Z) r2 voi rows cols i j,
+  length mask = length vii ->
+  Forall (fun x => 0 <= x) rows -> Forall (fun x => 0 <= x) cols ->
+  0 <= i < sumZ rows -> 0 <= j < sumZ cols ->
+  let k := nth (Z.to_nat j) (nth (Z.to_nat i)
+             (index_array_chunked (nvalid vii) voi (bf_query vii mask d2 r2) rows cols) []) (-1) in
+  (k <> -1 -> 0 <= k < nvalid vii /\ nth (src_of vii k) vii false = true /\ nth (src_of vii k) mask true = false
+              /\ d2 i j (src_of vii k) < r2) /\
+  (forall s, voi i j = true -> (s < length vii)%nat -> nth s vii false = true -> nth s mask true = false ->
+             d2 i j s < r2 -> k <> -1 /\ d2 i j (src_of vii k) <= d2 i j s).
+Proof.
+  intros vii mask d2 r2 voi rows cols i j Hlen Hr Hc Hi Hj k. split.
+  - intros Hk.
+    destruct (mask_never_selected vii mask (fun i j s => IZR (d2 i j s)) (IZR r2) voi (bf_query vii mask d2 r2) Hlen
+                (fun i j _ => bf_meets_spec vii mask d2 r2 i j) rows cols i j Hr Hc Hi Hj Hk) as (H1 & H2 & H3 & H4).
+    repeat split; try assumption; try apply H1. apply lt_IZR. exact H4.
+  - intros s Hv Hs Hvi Hm Hd.
+    destruct (unmasked_source_still_found vii mask (fun i j s => IZR (d2 i j s)) (IZR r2) voi (bf_query vii mask d2 r2) Hlen
+                (fun i j _ => bf_meets_spec vii mask d2 r2 i j) rows cols i j s Hr Hc Hi Hj Hv Hs Hvi Hm (IZR_lt _ _ Hd))
+      as [H1 H2].
+    split; [exact H1|apply le_IZR; exact H2].
+Qed.
+Print Assumptions C05_mask_clauses_for_brute_force.
+Example C05_brute_force_ex :      (* sources 0 (masked, nearest), 1 (invalid), 2 and 3 (valid); distances 1, 0, 9, 4; r2 = 10 *)
+  let d2 := fun (_ _ : Z) (s : nat) => nth s [1; 0; 9; 4] 100 in
+  bf_query [true; false; true; true] [true; false; false; false] d2 10 0 0 = 2        (* compacted index of source 3 *)
+  /\ bf_query [true; false; true; true] [true; false; true; true] d2 10 0 0 = 3      (* everything masked: n *)
+  /\ bf_query [true; false; true; true] [false; false; false; false] d2 1 0 0 = 3.   (* bound is strict *)
+Proof. repeat split; reflexivity. Qed.
+
+(* ---------------------------------------------------------------------------------------------------------------
+   histories of calls on one resampler object *)
+
+(* KDTreeNearestXarrayResampler: for every history of resample() calls on one instance, each call uses the neighbour
+   info of ITS OWN arguments, provided the cache key separates calls needing different info
+   (key = (mask.data.name, neighbors, radius, epsilon); dask names are content tokens) *)
+Theorem C05_cache_history : forall (Arg Key Info : Type) (key : Arg -> Key) key_eqb (compute : Arg -> Info),
+  (forall k k', key_eqb k k' = true <-> k = k') ->
+  (forall a a', key a = key a' -> compute a = compute a') ->
+  forall h, run key key_eqb compute [] h = map (fun a => Some (compute a)) h.
+Proof.
+  intros Arg Key Info key key_eqb compute H1 H2 h.
+  apply (cache_history key key_eqb compute H1 H2). apply empty_cache_ok.
+Qed.
+Print Assumptions C05_cache_history.
+(* the hypothesis is needed (and satisfiable): with a key that ignores the mask the second call reuses the first
+   call's info -- the failure mode the history correspondence looks for on the implementation *)
+Example C05_cache_key_ex :
+  run (fun m : Z => m) Z.eqb (fun m => 10 * m) [] [1; 2; 1] = [Some 10; Some 20; Some 10]
+  /\ run (fun _ : Z => 0) Z.eqb (fun m => 10 * m) [] [1; 2; 1] = [Some 10; Some 10; Some 10]
+  /\ run_sizes (fun m : Z => m) Z.eqb (fun m => 10 * m) [] [1; 2; 1] = [1; 2; 2].
+Proof. repeat split; reflexivity. Qed.
+(* XArrayResamplerNN: get_sample_from_neighbour_info right after get_neighbour_info(a) uses a's info, whatever the
+   earlier calls on the object were *)
+Theorem C05_legacy_history : forall (Arg Info : Type) (compute : Arg -> Info) h st a,
+  last (run_legacy compute st (h ++ [GetInfo a; Sample])) None = Some (compute a).
+Proof. intros Arg Info compute. exact (legacy_history compute). Qed.
+Print Assumptions C05_legacy_history.
